@@ -46,7 +46,10 @@ import arim.geometry as g
 
 drv = arimgen.Driver(chk.ocaml_driver("C16"))
 rng = chk.rng
-Q = chk.tier == "quick"
+# second tie: geometry.norm2 / rotation_matrix_x,y,z / spherical coordinates are re-translated from the current
+# source and checked convertible with the model; a broken tie deepens the correspondence run (thorough sizes)
+_ties = chk.translation_tie()
+Q = chk.tier == "quick" and all(v == "ok" for v in _ties.values())
 evaluations = 0
 nontrivial = set()
 samples = []
